@@ -41,7 +41,151 @@ def model_value(m, t):
 from .smt import regex_fold
 
 
-def smt_check(pc, goal, timeout_ms=None, want_model=None, use_cvc5=True):
+def symbols_of(f, cache={}):
+    k = f.get_id()
+    if k in cache and cache[k][0].eq(f):
+        return cache[k][1]
+    out = set()
+    todo = [f]
+    seen = set()
+    while todo:
+        x = todo.pop()
+        if x.get_id() in seen:
+            continue
+        seen.add(x.get_id())
+        if z3.is_app(x):
+            if x.num_args() == 0 and x.decl().kind() == z3.Z3_OP_UNINTERPRETED:
+                out.add(x.decl().name())
+            todo.extend(x.children())
+        elif z3.is_quantifier(x):
+            todo.append(x.body())
+    if len(cache) > 20000:
+        cache.clear()
+    cache[k] = (f, out)
+    return out
+
+
+def cone_of_influence(pc, goal):
+    syms = [symbols_of(c) for c in pc]
+    want = set(symbols_of(goal))
+    chosen = [False] * len(pc)
+    changed = True
+    while changed:
+        changed = False
+        for i, ss in enumerate(syms):
+            if not chosen[i] and (ss & want or not ss):
+                chosen[i] = True
+                if not ss <= want:
+                    want |= ss
+                    changed = True
+    return [c for c, ch in zip(pc, chosen) if ch]
+
+
+def relevance_layers(pc, goal, hops=(1, 2, 3, 4, 6)):
+    syms = [symbols_of(c) for c in pc]
+    dist = [None] * len(pc)
+    want = set(symbols_of(goal))
+    h = 0
+    layers = []
+    maxh = max(hops)
+    while h < maxh:
+        h += 1
+        new = set()
+        for i, ss in enumerate(syms):
+            if dist[i] is None and (ss & want or not ss):
+                dist[i] = h
+                new |= ss
+        want |= new
+        if h in hops:
+            layers.append([c for c, d in zip(pc, dist) if d is not None])
+    return layers
+
+
+def bool_simplify(f, lits):
+    """Shallow boolean simplification under known literals (no rewriting of theory atoms)."""
+    if z3.is_true(f) or z3.is_false(f):
+        return f
+    k = f.get_id()
+    if k in lits:
+        return z3.BoolVal(lits[k])
+    if not z3.is_app(f):
+        return f
+    kind = f.decl().kind()
+    if kind == z3.Z3_OP_NOT:
+        c = bool_simplify(f.arg(0), lits)
+        if z3.is_true(c): return z3.BoolVal(False)
+        if z3.is_false(c): return z3.BoolVal(True)
+        return z3.Not(c)
+    if kind == z3.Z3_OP_AND:
+        cs = [bool_simplify(c, lits) for c in f.children()]
+        if any(z3.is_false(c) for c in cs): return z3.BoolVal(False)
+        cs = [c for c in cs if not z3.is_true(c)]
+        return z3.And(cs) if len(cs) > 1 else (cs[0] if cs else z3.BoolVal(True))
+    if kind == z3.Z3_OP_OR:
+        cs = [bool_simplify(c, lits) for c in f.children()]
+        if any(z3.is_true(c) for c in cs): return z3.BoolVal(True)
+        cs = [c for c in cs if not z3.is_false(c)]
+        return z3.Or(cs) if len(cs) > 1 else (cs[0] if cs else z3.BoolVal(False))
+    if kind == z3.Z3_OP_IMPLIES:
+        a, b = bool_simplify(f.arg(0), lits), bool_simplify(f.arg(1), lits)
+        if z3.is_false(a) or z3.is_true(b): return z3.BoolVal(True)
+        if z3.is_true(a): return b
+        return z3.Implies(a, b)
+    if kind == z3.Z3_OP_ITE and z3.is_bool(f):
+        c = bool_simplify(f.arg(0), lits)
+        if z3.is_true(c): return bool_simplify(f.arg(1), lits)
+        if z3.is_false(c): return bool_simplify(f.arg(2), lits)
+        return z3.If(c, bool_simplify(f.arg(1), lits), bool_simplify(f.arg(2), lits))
+    return f
+
+
+def focused_query(pc, goal, defs):
+    """Unit-propagate literal facts through the assumptions, then keep the non-definitional
+    assumptions plus exactly those definitions whose defined symbols are mentioned (fixpoint).
+    A subset / weakening of the assumptions: unsat here is unsat of the full query."""
+    lits = {}
+    for c in pc:
+        a, v = c, True
+        while z3.is_app(a) and a.decl().kind() == z3.Z3_OP_NOT:
+            a, v = a.arg(0), not v
+        if z3.is_bool(a) and z3.is_app(a) and a.decl().kind() not in (z3.Z3_OP_AND, z3.Z3_OP_OR, z3.Z3_OP_IMPLIES, z3.Z3_OP_ITE):
+            lits.setdefault(a.get_id(), v)
+    plain, definitional = [], []
+    for c in pc:
+        d = defs.get(c.get_id()) if defs else None
+        if d is not None and d[0].eq(c):
+            definitional.append((c, d[1]))
+            continue
+        a = c
+        while z3.is_app(a) and a.decl().kind() == z3.Z3_OP_NOT:
+            a = a.arg(0)
+        if a.get_id() in lits and not (z3.is_app(a) and a.decl().kind() in (z3.Z3_OP_AND, z3.Z3_OP_OR)):
+            plain.append(c)            # the literal itself
+            continue
+        sc = bool_simplify(c, lits)
+        if not z3.is_true(sc):
+            plain.append(sc)
+    g = bool_simplify(goal, lits)
+    syms = set(symbols_of(g))
+    for c in plain:
+        syms |= symbols_of(c)
+    chosen = []
+    changed = True
+    rest = list(definitional)
+    while changed:
+        changed = False
+        for item in list(rest):
+            c, names = item
+            if names & syms:
+                sc = bool_simplify(c, lits)
+                chosen.append(sc)
+                syms |= symbols_of(sc)
+                rest.remove(item)
+                changed = True
+    return plain + chosen, g
+
+
+def smt_check(pc, goal, timeout_ms=None, want_model=None, use_cvc5=True, defs=None):
     """(status, backend, secs, model) for pc |= goal ; status in discharged/refuted/undecided."""
     t0 = time.time()
     folded = regex_fold([z3.simplify(c) for c in pc] + [z3.simplify(z3.Not(goal))])
@@ -65,6 +209,61 @@ def smt_check(pc, goal, timeout_ms=None, want_model=None, use_cvc5=True):
                 break
         if allunsat:
             return 'discharged', 'z3-%s(regex-fold)' % z3.get_version_string(), time.time() - t0, None, None
+    # stage 1: select-free (Ackermannised) variant of the query, by growing relevance layers, then whole.
+    # stage 2: the original query by relevance layers.  unsat of a weaker/abstracted query is unsat of the
+    # original (sound); sat answers are only ever taken from the original, complete query below.
+    from .smt import deselect
+    # stage 0: focused query (literals propagated, only the definitions that are referred to)
+    try:
+        fq, fg = focused_query(pc, goal, defs)
+        fflat = deselect(fq + [z3.Not(fg)])
+        for hops in (relevance_layers(fflat[:-1] if len(fflat) == len(fq) + 1 else fflat, fg) + [None]):
+            s = z3.Solver()
+            s.set('timeout', min(timeout_ms or Z3_TIMEOUT_MS, 3000))
+            for c in (fflat if hops is None else hops + [fflat[len(fq)]]):
+                s.add(c)
+            if s.check() == z3.unsat:
+                return 'discharged', 'z3-%s(focused %d/%d)' % (z3.get_version_string(), len(fq), len(pc)), time.time() - t0, None, None
+        if use_cvc5 and has_seq_terms(fflat) and cvc5_formulas(fflat, 10) == 'unsat':
+            return 'discharged', 'cvc5-1.0.3(focused %d/%d)' % (len(fq), len(pc)), time.time() - t0, None, None
+    except z3.Z3Exception:
+        pass
+    neg = z3.Not(goal)
+    try:
+        flat = deselect(list(pc) + [neg])
+    except z3.Z3Exception:
+        flat = None
+    budget = min(timeout_ms or Z3_TIMEOUT_MS, 4000)
+    if flat is not None:
+        fpc, fneg = flat[:len(pc)], flat[len(pc)]
+        extra = flat[len(pc) + 1:]
+        prev = -1
+        for rel in relevance_layers(fpc + extra, z3.Not(fneg)) + [fpc + extra]:
+            if len(rel) == prev:
+                continue
+            prev = len(rel)
+            s = z3.Solver()
+            s.set('timeout', budget)
+            for c in rel:
+                s.add(c)
+            s.add(fneg)
+            if s.check() == z3.unsat:
+                return 'discharged', 'z3-%s(select-free, %d/%d assumptions)' % (z3.get_version_string(), len(rel), len(pc)), time.time() - t0, None, None
+    if flat is not None and use_cvc5 and has_seq_terms(flat):
+        if cvc5_formulas(flat, 15) == 'unsat':
+            return 'discharged', 'cvc5-1.0.3(select-free)', time.time() - t0, None, None
+    prev = -1
+    for rel in relevance_layers(pc, goal):
+        if len(rel) == prev or len(rel) >= len(pc):
+            continue
+        prev = len(rel)
+        s = z3.Solver()
+        s.set('timeout', budget)
+        for c in rel:
+            s.add(c)
+        s.add(neg)
+        if s.check() == z3.unsat:
+            return 'discharged', 'z3-%s(relevant %d/%d)' % (z3.get_version_string(), len(rel), len(pc)), time.time() - t0, None, None
     s = z3.Solver()
     s.set('timeout', timeout_ms or Z3_TIMEOUT_MS)
     for c in pc:
@@ -88,7 +287,18 @@ def smt_check(pc, goal, timeout_ms=None, want_model=None, use_cvc5=True):
     return 'undecided', 'z3+cvc5', time.time() - t0, None, reason
 
 
-def cvc5_check(solver):
+def has_seq_terms(formulas):
+    return any('seq.' in f.sexpr() or 'str.' in f.sexpr() for f in formulas)
+
+
+def cvc5_formulas(formulas, tlimit_s):
+    s = z3.Solver()
+    for f in formulas:
+        s.add(f)
+    return cvc5_check(s, tlimit_s)
+
+
+def cvc5_check(solver, tlimit_s=None):
     try:
         txt = solver.to_smt2()
     except Exception:
@@ -99,8 +309,9 @@ def cvc5_check(solver):
     try:
         with os.fdopen(fd, 'w') as f:
             f.write(txt)
-        p = subprocess.run(['/usr/bin/cvc5', '--strings-exp', '--tlimit=%d' % (CVC5_TIMEOUT_S * 1000), path],
-                           capture_output=True, text=True, timeout=CVC5_TIMEOUT_S + 10)
+        tl = tlimit_s or CVC5_TIMEOUT_S
+        p = subprocess.run(['/usr/bin/cvc5', '--strings-exp', '--tlimit=%d' % (tl * 1000), path],
+                           capture_output=True, text=True, timeout=tl + 10)
         out = p.stdout.strip().split('\n')[0] if p.stdout.strip() else ''
         return out if out in ('sat', 'unsat', 'unknown') else 'error'
     except Exception:
@@ -110,6 +321,43 @@ def cvc5_check(solver):
             os.unlink(path)
         except OSError:
             pass
+
+
+def serialize_query(o, want):
+    """One obligation as text: assertions = path condition (in order) then NOT goal."""
+    s = z3.Solver()
+    for c in o.pc:
+        s.add(c)
+    s.add(z3.Not(o.goal))
+    defs = {}
+    for i, c in enumerate(o.pc):
+        d = o.defs.get(c.get_id()) if o.defs else None
+        if d is not None and d[0].eq(c):
+            defs[i] = sorted(d[1])
+    wants = {k: (t.sexpr(), t.sort().sexpr()) for k, t in (want or {}).items() if z3.is_const(t)}
+    return {'smt2': s.to_smt2(), 'n': len(o.pc), 'defs': defs, 'want': wants}
+
+
+def solve_serialized(arg):
+    q, timeout_ms = arg
+    fs = list(z3.parse_smt2_string(q['smt2']))
+    if len(fs) != q['n'] + 1:
+        # z3 may merge / split assertions when printing: fall back to a single undifferentiated query
+        pc, neg = fs[:-1], fs[-1]
+    else:
+        pc, neg = fs[:q['n']], fs[q['n']]
+    goal = neg.arg(0) if z3.is_app(neg) and neg.decl().kind() == z3.Z3_OP_NOT else z3.Not(neg)
+    defs = {}
+    for i, names in q['defs'].items():
+        i = int(i)
+        if i < len(pc):
+            defs[pc[i].get_id()] = (pc[i], frozenset(names))
+    want = {}
+    for k, (name, sort) in q['want'].items():
+        srt = {'Int': z3.IntSort(), 'Bool': z3.BoolSort(), 'String': z3.StringSort()}.get(sort)
+        if srt is not None:
+            want[k] = z3.Const(name.strip('|'), srt)
+    return smt_check(pc, goal, timeout_ms, want, defs=defs)
 
 
 class FunctionReport:
@@ -133,7 +381,7 @@ class FunctionReport:
                 'obligations': [v.as_dict() for v in self.verdicts]}
 
 
-def prove_function(world, make_models, contract, timeout_ms=None, arg_terms_out=None):
+def prove_function(world, make_models, contract, timeout_ms=None, arg_terms_out=None, inner_jobs=1):
     """Symbolically execute contract.fn under contract.requires and check every obligation."""
     rep = FunctionReport(contract)
     t0 = time.time()
@@ -178,6 +426,10 @@ def prove_function(world, make_models, contract, timeout_ms=None, arg_terms_out=
                 # returning normally is only allowed when no exception was mandatory
                 pass
         else:
+            if getattr(val, 'implicit', False) and not issubclass(val.cls, tuple(getattr(c, 'allow_implicit', ()) or (type(None),))):
+                # raised by a primitive of the function's own body (None attribute, index, key, type
+                # error ...), not by a callee: never covered by a blanket `raises Exception`
+                ctx.oblige('no-implicit-exception:%s' % val.cls.__name__, z3.BoolVal(False), kind='raises')
             matched = False
             for ecls, when in c.raises.items():
                 if issubclass(val.cls, ecls):
@@ -213,22 +465,46 @@ def prove_function(world, make_models, contract, timeout_ms=None, arg_terms_out=
                 rep.raise_paths[r.value.cls.__name__] = rep.raise_paths.get(r.value.cls.__name__, 0) + 1
         for o in r.obligations:
             grouped.setdefault(o.name, []).append(o)
+    # discharge: trivial goals by the simplifier, the rest as independent SMT queries - serialised
+    # to SMT-LIB and spread over `inner_jobs` worker processes when there are enough of them
+    flatq = []
     for name, obls in grouped.items():
-        status, backend, secs, model, detail = 'discharged', '', 0.0, None, ''
         for o in obls:
-            if z3.is_true(z3.simplify(o.goal)):
-                st, be, sc, mo, de = 'discharged', 'simplifier', 0.0, None, None
-            else:
-                st, be, sc, mo, de = smt_check(o.pc, o.goal, timeout_ms, want)
+            flatq.append((name, o))
+    results = [None] * len(flatq)
+    hard = []
+    for i, (name, o) in enumerate(flatq):
+        if z3.is_true(z3.simplify(o.goal)):
+            results[i] = ('discharged', 'simplifier', 0.0, None, None)
+        else:
+            hard.append(i)
+    if inner_jobs > 1 and len(hard) >= 4:
+        import concurrent.futures as cf
+        import multiprocessing as mp
+        payload = [serialize_query(flatq[i][1], want) for i in hard]
+        with cf.ProcessPoolExecutor(max_workers=min(inner_jobs, len(hard)), mp_context=mp.get_context('spawn')) as ex:
+            for i, r in zip(hard, ex.map(solve_serialized, [(p, timeout_ms) for p in payload])):
+                results[i] = r
+    else:
+        for i in hard:
+            o = flatq[i][1]
+            results[i] = smt_check(o.pc, o.goal, timeout_ms, want, defs=o.defs)
+    by_name = {}
+    for (name, o), r in zip(flatq, results):
+        by_name.setdefault(name, []).append((o, r))
+    for name, lst in by_name.items():
+        status, backend, secs, model, detail = 'discharged', '', 0.0, None, ''
+        for o, (st, be, sc, mo, de) in lst:
             secs += sc
-            backend = be if not backend or be == backend else backend + '+' + be
+            backend = be if not backend or be == backend else (backend if be in backend else backend + '+' + be)
             if st == 'refuted':
                 status, model = 'refuted', mo
                 break
             if st == 'undecided':
                 status, detail = 'undecided', de or ''
-        rep.verdicts.append(Verdict(name, status, backend, round(secs, 3), obls[0].where, obls[0].kind,
-                                    model, detail, len(obls)))
+        o0 = lst[0][0]
+        rep.verdicts.append(Verdict(name, status, backend, round(secs, 3), o0.where, o0.kind,
+                                    model, detail, len(lst)))
     rep.secs = time.time() - t0
     return rep
 
